@@ -1,0 +1,23 @@
+//go:build verif
+
+package j2t
+
+import "github.com/cloudwego/dynamicgo/internal/native/types"
+
+// VerifStep, when set, is called every time the native state machine hands control back to Go
+// (finished, failed, or asking for a resource / a mapping before it is resumed), with the error code,
+// its argument, and the sizes of the output buffer and of the machine's caches
+// (verification hook, only built with the tag "verif").
+var VerifStep func(code int, arg int, start int, buf []byte, sp int, jsonPos int, reqLen, reqCap, keyLen, keyCap, fieldLen, fieldCap int)
+
+func verifStep(fsm *types.J2TStateMachine, buf *[]byte, ret uint64, start int) {
+	if VerifStep == nil {
+		return
+	}
+	pos := -1
+	if vt := fsm.Now(); vt != nil {
+		pos = vt.JsonPos
+	}
+	VerifStep(int(ret&((1<<types.ERR_WRAP_SHIFT_CODE)-1)), int(ret>>types.ERR_WRAP_SHIFT_CODE), start, *buf, fsm.SP, pos,
+		len(fsm.ReqsCache), cap(fsm.ReqsCache), len(fsm.KeyCache), cap(fsm.KeyCache), len(fsm.FieldCache), cap(fsm.FieldCache))
+}
